@@ -22,6 +22,8 @@ def term_value(term) -> float:
     if c == 0.0:
         return 0.0
     w = math.exp(float(term["ln"]))
+    if term.get("hm"):
+        w *= float(term["m"])
     f = term["f"]
     t = float(term["t"])
     if f == "one":
